@@ -119,11 +119,19 @@ func newScriptedServer(cfg sessionCfg) *scriptedServer {
 	ss := &scriptedServer{conns: map[string]*memConn{}, byConn: map[net.Conn]string{}, scripts: map[string][]behaviour{}, callSeen: map[string]int{}}
 	s := &kmip.Server{}
 	s.Log = log.New(io.Discard, "", 0)
-	if cfg.rt {
-		s.ReadTimeout = 30 * time.Second
+	// (the fields of a Server may be filled in in any order before Serve: for half of the configurations the timeouts are
+	// set only after the handlers have been registered)
+	setTimeouts := func() {
+		if cfg.rt {
+			s.ReadTimeout = 30 * time.Second
+		}
+		if cfg.wt {
+			s.WriteTimeout = 30 * time.Second
+		}
 	}
-	if cfg.wt {
-		s.WriteTimeout = 30 * time.Second
+	timeoutsLast := len(cfg.ops)%2 == 0
+	if !timeoutsLast {
+		setTimeouts()
 	}
 	if len(cfg.supported) > 0 {
 		s.SupportedVersions = append([]kmip.ProtocolVersion(nil), cfg.supported...)
@@ -136,8 +144,14 @@ func newScriptedServer(cfg sessionCfg) *scriptedServer {
 			ss.mu.Unlock()
 			if cfg.sa == "fail" {
 				mc.event("sa", "fail")
-				if len(tok)%2 == 0 {
+				// the kind of error must not matter: carrying a KMIP reason, a "temporary" net.Error (with and without Timeout), plain
+				switch (len(tok) + int(atomic.AddInt32(&ss.rejections, 1))) % 4 {
+				case 0:
 					return nil, reasonError{"session auth rejected", kmip.RESULT_REASON_AUTHENTICATION_NOT_SUCCESSFUL}
+				case 1:
+					return nil, tempError{timeout: false}
+				case 2:
+					return nil, &net.OpError{Op: "auth", Net: "mem", Err: tempError{timeout: true}}
 				}
 				return nil, errors.New("session auth rejected")
 			}
@@ -202,6 +216,9 @@ func newScriptedServer(cfg sessionCfg) *scriptedServer {
 				panic(b.panicV)
 			}
 		})
+	}
+	if timeoutsLast {
+		setTimeouts()
 	}
 	ss.srv = s
 	ss.lis = newMemListener()
@@ -874,6 +891,126 @@ func sessionCrossWait(rep *Report, viol func(string, map[string]interface{})) {
 	}
 }
 
+// sessionPartialWrite (C07 "the k-th response answers the k-th request", C15): a peer that drains slowly - a Write gets some
+// bytes out and then times out.  Whatever the server does about it (it gives the connection up), the bytes that reach the
+// peer are a prefix of the response stream: nothing is sent twice, nothing out of order.
+func sessionPartialWrite(rep *Report, viol func(string, map[string]interface{})) {
+	for _, drain := range []int{40, 100} {
+		s := &kmip.Server{Log: log.New(io.Discard, "", 0), WriteTimeout: 150 * time.Millisecond, ReadTimeout: 2 * time.Second}
+		lis := newMemListener()
+		served := make(chan error, 1)
+		init := make(chan struct{})
+		go func() { served <- s.Serve(lis, init) }()
+		<-init
+		// what an unhindered peer receives for the same two requests
+		ref := newMemConn("pw-ref")
+		lis.ch <- acceptResult{conn: ref}
+		req := dvRequest()
+		ref.peerSend(append(append([]byte(nil), req...), req...))
+		ref.waitUntil(5*time.Second, func() bool { return len(splitMessages(ref.out)) >= 2 || ref.localClosed })
+		ref.mu.Lock()
+		want := append([]byte(nil), ref.out...)
+		ref.mu.Unlock()
+		ref.peerClose()
+		mc := newMemConn("pw-slow")
+		mc.drainPerWrite = drain
+		lis.ch <- acceptResult{conn: mc}
+		mc.peerSend(append(append([]byte(nil), req...), req...))
+		mc.waitUntil(3*time.Second, func() bool { return mc.localClosed })
+		time.Sleep(100 * time.Millisecond)
+		mc.mu.Lock()
+		got := append([]byte(nil), mc.out...)
+		closed := mc.localClosed
+		mc.mu.Unlock()
+		rep.Evaluations++
+		rep.Distribution["partial-write"]++
+		norm := func(b []byte) []byte { // time stamps may differ by a second between the two connections
+			var out []byte
+			for _, m := range splitMessages(b) {
+				mm := append([]byte(nil), m...)
+				normaliseTimeStamp(mm, time.Unix(0, 0), time.Now().Add(time.Hour))
+				out = append(out, mm...)
+			}
+			return out
+		}
+		g, w := norm(got), norm(want)
+		if len(want) > 0 && (len(g) > len(w) || !bytes.Equal(g, w[:len(g)])) && !bytes.HasPrefix(want, got) {
+			viol("unanswered-open", map[string]interface{}{"what": "a slowly draining peer (a Write times out after some bytes went out): the bytes that reached the peer are not a prefix of the response stream - something was sent twice or out of order",
+				"bytes_per_write": drain, "received": firstN(hexBytes(got), 1600), "response_stream": firstN(hexBytes(want), 1600), "connection_closed": closed})
+		}
+		mc.peerClose()
+		ctx, cancel := contextWithTimeout(3 * time.Second)
+		s.Shutdown(ctx)
+		cancel()
+		select {
+		case <-served:
+		case <-time.After(3 * time.Second):
+		}
+	}
+}
+
+// a user-defined payload type that nests ITS OWN type under another tag (a tree)
+type UTreeNode struct {
+	Label    string      `kmip:"COMMENT,required"`
+	Children []UTreeNode `kmip:"ATTRIBUTE_VALUE"`
+}
+
+// sessionUserPayload (C08 "Success with the handler's payload", "one item never changes the result of other items"): handlers may
+// return payloads of user-defined structure types.  A batch of a built-in Discover Versions item and an item whose handler
+// returns a tree goes through the real server; the response on the wire is compared byte for byte with the independent TTLV
+// serialisation of the response it must be (time stamp taken from the wire).
+func sessionUserPayload(rep *Report, viol func(string, map[string]interface{})) {
+	payloads := []interface{}{
+		UTreeNode{Label: "root"},
+		UTreeNode{Label: "root", Children: []UTreeNode{{Label: "a"}, {Label: "b", Children: []UTreeNode{{Label: "c"}}}}},
+		&UTreeNode{Label: "r", Children: []UTreeNode{{Label: "x"}}},
+	}
+	for _, pl := range payloads {
+		pl := pl
+		s := &kmip.Server{Log: log.New(io.Discard, "", 0)}
+		s.Handle(kmip.OPERATION_GET, func(ctx *kmip.RequestContext, item *kmip.RequestBatchItem) (interface{}, error) { return pl, nil })
+		lis := newMemListener()
+		served := make(chan error, 1)
+		init := make(chan struct{})
+		go func() { served <- s.Serve(lis, init) }()
+		<-init
+		mc := newMemConn("user-payload")
+		lis.ch <- acceptResult{conn: mc}
+		req := kmip.Request{Header: kmip.RequestHeader{Version: kmip.ProtocolVersion{Major: 1, Minor: 4}, BatchCount: 3},
+			BatchItems: []kmip.RequestBatchItem{
+				{Operation: kmip.OPERATION_DISCOVER_VERSIONS, UniqueID: []byte{1}, RequestPayload: kmip.DiscoverVersionsRequest{}},
+				{Operation: kmip.OPERATION_GET, UniqueID: []byte{2}, RequestPayload: kmip.GetRequest{UniqueIdentifier: "k"}},
+				{Operation: kmip.OPERATION_DISCOVER_VERSIONS, UniqueID: []byte{3}, RequestPayload: kmip.DiscoverVersionsRequest{}}}}
+		mc.peerSend(buildMessage(&req))
+		mc.waitUntil(5*time.Second, func() bool { return len(splitMessages(mc.out)) >= 1 || mc.localClosed })
+		mc.mu.Lock()
+		got := append([]byte(nil), mc.out...)
+		mc.mu.Unlock()
+		rep.Evaluations++
+		rep.Distribution["user-payload"]++
+		ts, _ := responseTimeStamp(got)
+		dv := kmip.DiscoverVersionsResponse{ProtocolVersions: append([]kmip.ProtocolVersion(nil), kmip.DefaultSupportedVersions...)}
+		want := kmip.Response{Header: kmip.ResponseHeader{Version: kmip.ProtocolVersion{Major: 1, Minor: 4}, TimeStamp: time.Unix(ts, 0), BatchCount: 3},
+			BatchItems: []kmip.ResponseBatchItem{
+				{Operation: kmip.OPERATION_DISCOVER_VERSIONS, UniqueID: []byte{1}, ResultStatus: kmip.RESULT_STATUS_SUCCESS, ResponsePayload: dv},
+				{Operation: kmip.OPERATION_GET, UniqueID: []byte{2}, ResultStatus: kmip.RESULT_STATUS_SUCCESS, ResponsePayload: pl},
+				{Operation: kmip.OPERATION_DISCOVER_VERSIONS, UniqueID: []byte{3}, ResultStatus: kmip.RESULT_STATUS_SUCCESS, ResponsePayload: dv}}}
+		wantBytes, ok := indepOpts{}.indepTop(&want)
+		if ok && !bytes.Equal(got, wantBytes) {
+			viol("serve-error", map[string]interface{}{"what": "a handler returned a payload of a user-defined structure type (a tree nesting its own type under another tag): the response on the wire is not the TTLV serialisation of Success with that payload plus the unchanged results of the other items",
+				"payload": fmt.Sprintf("%+v", pl), "wire": firstN(hexBytes(got), 2400), "expected": firstN(hexBytes(wantBytes), 2400)})
+		}
+		mc.peerClose()
+		ctx, cancel := contextWithTimeout(3 * time.Second)
+		s.Shutdown(ctx)
+		cancel()
+		select {
+		case <-served:
+		case <-time.After(3 * time.Second):
+		}
+	}
+}
+
 func suiteSession(args []string) {
 	fs := flag.NewFlagSet("session", flag.ExitOnError)
 	seed := fs.Int64("seed", 1, "")
@@ -968,6 +1105,8 @@ func suiteSession(args []string) {
 	rep.Distribution["idle-timestamp"] += 4
 	sessionBurst(rep, viol)
 	sessionCrossWait(rep, viol)
+	sessionPartialWrite(rep, viol)
+	sessionUserPayload(rep, viol)
 	// truncation sweep (C10): one valid request ending in a Message Extension with a Vendor Extension item (the skipped
 	// position), preceded by a complete valid request; every proper prefix of the second one followed by close
 	{
